@@ -21,7 +21,9 @@ TreeOK(e, res, err) == err = "" /\ Len(res) = 1 /\ FromObs(res[1]) = Want(e)
 RawOK(e) == /\ ~e.panic /\ e.origwf
             /\ TreeOK(e, e.marshal, e.merr) /\ TreeOK(e, e.second, e.serr) /\ TreeOK(e, e.embed, e.eerr)
             /\ e.finite /\ Balanced(e.tokens) /\ e.tokens = WantTokens(e)
-TypedOK(e) == ~e.panic /\ ~e.derr /\ ~e.rerr /\ e.direct = e.viaraw
+\* valid documents decode, and equally both ways; for the namespace variants only the agreement is required (both fail, or
+\* both yield the same value)
+TypedOK(e) == ~e.panic /\ (e.valid => ~e.derr /\ ~e.rerr) /\ e.derr = e.rerr /\ (~e.derr => e.direct = e.viaraw)
 Accept(e) == IF e.k = "raw" THEN RawOK(e) ELSE IF e.k = "typed" THEN TypedOK(e) ELSE FALSE
 
 RECURSIVE HasUndecl(_), HasDefault(_), HasPfxEl(_), HasUnprefixedUnderPfx(_, _)
